@@ -334,3 +334,27 @@ Proof. exact flow_nonvacuous. Qed.
 Theorem c17_src_flow_table : g_flow_table = map flow_row g_consumer_joins.
 Proof. exact flow_table_is_the_site_list. Qed.
 Print Assumptions c17_src_flow_table.
+
+(* ====================================================================================
+   Round 5 — the identifiers as values (C17/IdModel.v, read from debugid 0.8.0): every DebugId value (PDB 7 or
+   PDB 2.0, any uuid / timestamp / appendix) and every raw code id string renders as hex-only text, so the
+   hypothesis `opt_hex` / `mv_hex` of the theorems above holds for all of them. *)
+From RM Require Import C17.IdModel C17.IdProofs.
+
+Theorem c17_ids_render_hex :
+  (forall d, hex_only (breakpad_text d)) /\ (forall raw, hex_only (code_id_text raw)).
+Proof. exact ids_render_hex. Qed.
+Print Assumptions c17_ids_render_hex.
+
+(* the property with no assumption on the identifiers: all strings, all DebugId values, all raw code ids *)
+Theorem c17_src_all_ids : forall code_file debug_file d raw_code_id kind l,
+  g_lookup (module_of_ids code_file debug_file d raw_code_id) kind = Some l ->
+  safe_rel (cache_rel l) /\ safe_rel (server_rel l).
+Proof. exact src_all_ids. Qed.
+Print Assumptions c17_src_all_ids.
+
+Example c17_nonvacuous_ids :
+  option_map breakpad_text (parse_breakpad [51;99;48;100;50;49;101;52;48;48;48;49]) = Some [51;67;48;68;50;49;69;52;49] /\
+  option_map breakpad_text (parse_breakpad (repeat 48 33)) = Some (repeat 48 33) /\
+  code_id_text [53;65;47;46;46;92;71;102] = [53;97;102].
+Proof. exact parse_render_nonvacuous. Qed.
